@@ -260,6 +260,13 @@ M_RoleGate(P, a, O, Q) ==
        => P.call.active /\ Actor(a) \in Members /\ Actor(a) # P.call.origUid /\ a.s # P.call.orig, "RoleGate:ringing_accept_only_from_callee")
   \cup If(a.event \in Exchange /\ HasEffect(P, O, Q)
        => P.call.active /\ P.call.accepted /\ a.s \in P.call.parties, "RoleGate:exchange_only_from_party_sessions_of_accepted_call")
+  \* hang-up by role (the property's mechanism "party sessions for offer/answer/candidate and hang-up"): once the call is accepted only
+  \* the two party sessions can end it - not the callee's or the caller's other devices -, before that the originating session
+  \* (missed) or any session of the callee (declined)
+  \cup If(a.event = EvHangUp /\ HasEffect(P, O, Q)
+       => P.call.active /\ (IF P.call.accepted THEN a.s \in P.call.parties
+                             ELSE a.s = P.call.orig \/ (Actor(a) \in Members /\ Actor(a) # P.call.origUid)),
+          "RoleGate:hang_up_only_from_party_sessions_or_callee_before_acceptance")
 
 \* the session an event of `a` has to be relayed to
 PeerOf(P, a) == IF a.event \in Exchange THEN {x \in P.call.parties : x # a.s} ELSE {P.call.orig}
